@@ -180,11 +180,15 @@ pub fn run(ctx: &Ctx) -> Report {
     rep.run_stage("tall", || tall_case(&cfg()), ctx.cases(60, 2_400), check_case);
     let corpus = corpus_ast_cases(10, 40, 6, ctx);
     rep.run_enum("corpus", &corpus, check_corpus);
+    super::scale::run(&mut rep, ctx, "C01");
     rep
 }
 
 pub fn replay(stage: &str, case: &Value) -> Check {
     let mut st = Stats::new();
+    if stage == "scale" {
+        return super::scale::replay(case);
+    }
     match stage {
         "ast" | "tall" => check_case(&serde_json::from_value(case.clone()).map_err(|e| Fail::new("harness-replay", e.to_string()))?, &mut st),
         "corpus" => check_corpus(&serde_json::from_value(case.clone()).map_err(|e| Fail::new("harness-replay", e.to_string()))?, &mut st),
